@@ -130,14 +130,16 @@ Section Anchors.
   Definition anchors (st : mstate) (c : cmd) : list pstr * list pstr :=
     match c with
     | KCreate n0 =>
-      let n := norm n0 in
-      if name_eqb n INBOX then ([], [])
-      else match lsplit lay n with
-           | None => ([], [])
-           | Some parts =>
-             let '(pre, okk) := checked_prefixes st parts (seq 1 (length parts - 2)) in
-             if okk then (pre ++ [gp parts], []) else (pre, [])
-           end
+      match create_name n0 with
+      | inr _ => ([], [])
+      | inl n =>
+        match lsplit lay n with
+        | None => ([], [])
+        | Some parts =>
+          let '(pre, okk) := checked_prefixes st parts (seq 1 (length parts - 2)) in
+          if okk then (pre ++ [gp parts], []) else (pre, [])
+        end
+      end
     | KDelete n0 =>
       let n := norm n0 in
       if name_eqb n INBOX then ([], [])
@@ -152,8 +154,11 @@ Section Anchors.
               end)
            end
     | KRename a0 b0 =>
-      let a := norm a0 in let b := norm b0 in
-      if name_eqb b INBOX || name_eqb a INBOX || starts_with (a ++ [DELIM]) b then ([], [])
+      let a := norm a0 in
+      match rename_dest b0 with
+      | inr _ => ([], [])
+      | inl b =>
+      if name_eqb a INBOX || starts_with (a ++ [DELIM]) b then ([], [])
       else
         let t := x_tree st in
         let fl := folder_paths st in
@@ -177,6 +182,7 @@ Section Anchors.
             (fl ++ sup ++ moved, match lay with LFs => [gp pa] | LPlus => [] end)
           end
         end
+      end
     | KSubscribe _ | KUnsubscribe _ | KLsub _ _ => ([], [])
     | KList _ pat => match pat with [] => ([], []) | _ => (folder_paths st, []) end
     | KStatus n0 | KSelect n0 | KAppend n0 | KCopy n0 => (name_anchor (norm n0), [])
@@ -193,12 +199,16 @@ Definition delete_target (lay : layout) (root : pstr) (n0 : name) : list pstr :=
   else match lsplit lay n with None => [] | Some parts => [get_path lay root parts] end.
 
 Definition rename_targets (lay : layout) (root : pstr) (a0 b0 : name) : list pstr :=
-  let a := norm a0 in let b := norm b0 in
-  if name_eqb b INBOX || name_eqb a INBOX then []
-  else match lsplit lay a, lsplit lay b with
-       | Some pa, Some pb => [get_path lay root pa; get_path lay root pb]
-       | _, _ => []
-       end.
+  let a := norm a0 in
+  match rename_dest b0 with
+  | inr _ => []
+  | inl b =>
+    if name_eqb a INBOX then []
+    else match lsplit lay a, lsplit lay b with
+         | Some pa, Some pb => [get_path lay root pa; get_path lay root pb]
+         | _, _ => []
+         end
+  end.
 
 (* the dict backend: one MailboxSet per identity (Config.set_cache) *)
 Definition dstore := list (name * dstate).      (* user -> that user's state *)
